@@ -153,18 +153,54 @@ let replay () =
         u (i - 2) || u (i - 1) || u i || u (i + 1) || u (i + 2) in
       let same_locked (x : fw) (y : fw) =
         x.f_stop = y.f_stop && x.f_expiring = y.f_expiring && x.f_cancel = y.f_cancel && x.f_on_eq = y.f_on_eq in
+      (* nni_aio_reset writes a_abort, a_result, a_expire_ok, a_sleep, a_done without eq_mtx and logs its record
+         afterwards: a locked section of another thread may run (and be logged) between those writes and the
+         reset's own record, however many records of other threads come in between.  A record explained by a
+         reset that is logged within the next few records of this aio, some of whose writes had already landed,
+         is such a race. *)
+      let reset_ahead () =
+        let has = ref false and has14 = ref false in
+        for j = i + 1 to min (Array.length a - 1) (i + 12) do
+          let (_, kd, _, _) = a.(j) in
+          if kd = 13 then has := true;
+          if kd = 14 then (has := true; has14 := true)      (* nni_sleep_aio: reset, then a_sleep := true, a_expire_ok := either *)
+        done;
+        !has &&
+        (match tk with
+         | None -> false
+         | Some t ->
+           let found = ref false in
+           for mask = 1 to (if !has14 then 255 else 31) do
+             if not !found then begin
+               let p0 = pre in
+               let p1 = if mask land 1 <> 0 then { p0 with f_abort = false } else p0 in
+               let p2 = if mask land 2 <> 0 then { p1 with f_result = n_of_int 0 } else p1 in
+               let p3 = if mask land 4 <> 0 then { p2 with f_expire_ok = false } else p2 in
+               let p4 = if mask land 8 <> 0 then { p3 with f_sleep = false } else p3 in
+               let p5 = if mask land 16 <> 0 then { p4 with f_done = false } else p4 in
+               let p5 = if mask land 32 <> 0 then { p5 with f_sleep = true } else p5 in
+               let p5 = if mask land 64 <> 0 then { p5 with f_expire_ok = true } else p5 in
+               let p5 = if mask land 128 <> 0 then { p5 with f_expire_ok = false } else p5 in
+               (match fw_step t p5 with
+                | Some e -> let e = if kind = 14 then { e with f_expire_ok = logged.f_expire_ok } else e in
+                            if e = logged then found := true
+                | None -> ())
+             end
+           done;
+           !found) in
       (match tk with
        | None -> incr bad; Printf.printf "MISMATCH seq=%d unknown kind %d\n" seq kind
        | Some tk ->
          (match fw_step tk pre with
           | None ->
-              if near_unlocked then incr races
+              if near_unlocked || reset_ahead () then incr races
               else (incr bad; Printf.printf "MISMATCH seq=%d aio=%d kind=%d not enabled from: %s ; logged: %s\n" seq k kind (show pre) (show logged))
           | Some exp ->
               let exp = if kind = 14 then { exp with f_expire_ok = logged.f_expire_ok } else exp in
               if exp <> logged then begin
                 if near_unlocked && same_locked exp logged then incr races
                 else if overtaken () then incr races
+                else if reset_ahead () then incr races
                 else (incr bad;
                       Printf.printf "MISMATCH seq=%d aio=%d kind=%d pre: %s ; model: %s ; logged: %s\n" seq k kind (show pre) (show exp) (show logged))
               end));
